@@ -443,7 +443,8 @@ PAIR_LAWS = [row[0] for row in LAWS if row[3] in ("pair", "pair-list")]
 # each range 4 172 / 14 108, dyads 22 282 / 193 941, perfect-square laws 404 / 626, variants int = sympy
 # 150 771 / 1 206 246, literal 26 460 / 109 572, pseudoprimes beyond the exhaustive range 131 / 102.
 # Minimum = measured / 5.
-MIN_COUNTERS = {}
+MIN_COUNTERS = {
+    "variant:int/flag": {"quick": 2000, "thorough": 10000},}
 for _name, _prog, _arity, _dom, _rhs in LAWS:
     if _dom == "n-square":
         MIN_COUNTERS[f"law:{_name}"] = {"quick": 80, "thorough": 120}
@@ -481,6 +482,8 @@ def units(tier, seed):
             u.append({"kind": "special", "which": which, "from": part, "to": part + 12})
     for k in range(RANDOM_UNITS[tier]):
         u.append({"kind": "rnd", "seed": seed * 100003 + k, "n": RANDOM_PER_UNIT, "nmax": N})
+    for fl in ("M", "m", "Ṁ"):
+        u.append({"kind": "flagged", "flag": fl, "hi": 40 if tier == "quick" else 200})
     return u
 
 
@@ -640,6 +643,11 @@ def run_case(acc, name, args, variant, expect=None):
         acc.skip(f"{name}: {expect[1]}")
         return False
     case = {"kind": "case", "law": name, "args": list(args), "variant": variant}
+    # "int/M": the same case under an interpreter flag that changes *implicit* ranges only (M, m, Ṁ):
+    # explicit builtins must not notice
+    flags = ""
+    if "/" in variant:
+        variant, flags = variant.split("/", 1)
     vals = stack_args(name, args, "int" if variant == "literal" else variant)
     if variant == "literal":
         text, stack = literal_text(vals) + " " + prog, []
@@ -650,7 +658,7 @@ def run_case(acc, name, args, variant, expect=None):
     detail = None
     try:
         with watchdog(CASE_SECONDS):
-            r = env.run_text(text, stack=stack)
+            r = env.run_text(text, stack=stack, flags=flags)
             if r.error is not None:
                 err = f"{r.error[0]}: {type(r.error[1]).__name__}: {r.error[1]}"[:300]
             elif expect[0] == "stack":
@@ -678,7 +686,7 @@ def run_case(acc, name, args, variant, expect=None):
         return False
     acc.res["evals"] += 1
     acc.count(f"law:{name}")
-    acc.count(f"variant:{variant}")
+    acc.count(f"variant:{variant}" + ("/flag" if flags else ""))
     kind = None
     if err is not None:
         kind = "raises"
@@ -854,6 +862,17 @@ def run_unit(unit):
             run_pair(acc, a, b, binom=False)
             res["keys"].append(harness.short_hash([a, b]))
         acc.count(f"special:{unit['which']}", len(nums[:12]))
+        return res
+    if k == "flagged":
+        for name, _prog, arity, _dom, _rhs in LAWS:
+            for n in range(0, unit["hi"] + 1):
+                args = [n] if arity == 1 else [n, (n * 7 + 3) % 23]
+                try:
+                    run_case(acc, name, args[:max(1, arity)], "int/" + unit["flag"])
+                except Exception:  # noqa  (law not defined for this arity pattern)
+                    acc.skip("flagged:" + name)
+                    break
+        res["distinct"] = unit["hi"]
         return res
     if k == "rnd":
         r = random.Random(unit["seed"])
